@@ -395,7 +395,8 @@ structure Abs where
 deriving DecidableEq, Repr
 
 /-- the code's own notion of "decoded": ipfix/v9/v5 count when `Decode` returned a message;
-sFlow counts when the datagram decoded, has a sample and marshalled -/
+sFlow counts when the datagram decoded, has a sample and marshalled.  (NetFlow v5: since the F29 repair `Decode`
+returns a message exactly when it reports no error — `C08.decode_ok_iff`, `C13.v5_counted_iff_decodes`.) -/
 inductive CountSpec | onMsg | onYield
 deriving DecidableEq, Repr
 
